@@ -52,24 +52,27 @@ func (c *Ctx) ruleKeyID(rule string) {
 		if !strings.HasPrefix(c.M.Key(fn), "schema."+named.Obj().Name()+".") {
 			continue
 		}
-		// the receiver's own table: a field of type map[string]*ObjectSchema
-		ownTable := func(v ssa.Value) bool {
-			return derivedFrom(v, func(x ssa.Value) bool {
-				fa, ok := x.(*ssa.FieldAddr)
-				if !ok || !reachedFrom(fa.X, fn.Params[0], 0) {
-					return false
-				}
-				p, ok := fa.X.Type().Underlying().(*types.Pointer)
-				if !ok {
-					return false
-				}
-				st, ok := p.Elem().Underlying().(*types.Struct)
-				if !ok {
-					return false
-				}
-				mt, ok := st.Field(fa.Field).Type().Underlying().(*types.Map)
-				return ok && isNamedPtr(mt.Elem(), "ObjectSchema")
-			}) || c.returnsOwnTable(v, fn)
+		// the receiver's own table: a field of type map[string]*ObjectSchema (of the receiver of g, the function looked at:
+		// the ApplyNamespace itself or a same-receiver helper that chooses the table)
+		ownTableIn := func(g *ssa.Function) func(v ssa.Value) bool {
+			return func(v ssa.Value) bool {
+				return derivedFrom(v, func(x ssa.Value) bool {
+					fa, ok := x.(*ssa.FieldAddr)
+					if !ok || !reachedFrom(fa.X, g.Params[0], 0) {
+						return false
+					}
+					p, ok := fa.X.Type().Underlying().(*types.Pointer)
+					if !ok {
+						return false
+					}
+					st, ok := p.Elem().Underlying().(*types.Struct)
+					if !ok {
+						return false
+					}
+					mt, ok := st.Field(fa.Field).Type().Underlying().(*types.Map)
+					return ok && isNamedPtr(mt.Elem(), "ObjectSchema")
+				}) || c.returnsOwnTable(v, g)
+			}
 		}
 		// hand-overs: calls of ApplyNamespace on something reached from the receiver with a table argument that may be
 		// the receiver's own table
@@ -98,24 +101,40 @@ func (c *Ctx) ruleKeyID(rule string) {
 					continue
 				}
 				// where the own table enters the value that is handed over: the block of the call, or - for a phi - the
-				// predecessor blocks of the edges that carry it
-				var sources []*ssa.BasicBlock
-				var visit func(v ssa.Value, at *ssa.BasicBlock, d int)
-				visit = func(v ssa.Value, at *ssa.BasicBlock, d int) {
+				// predecessor blocks of the edges that carry it, or - for a same-receiver helper that chooses the table -
+				// the helper's returns that yield it
+				type source struct {
+					fn *ssa.Function
+					b  *ssa.BasicBlock
+				}
+				var sources []source
+				var visit func(g *ssa.Function, v ssa.Value, at *ssa.BasicBlock, d int)
+				visit = func(g *ssa.Function, v ssa.Value, at *ssa.BasicBlock, d int) {
 					if d > 4 {
 						return
 					}
 					if phi, isPhi := v.(*ssa.Phi); isPhi {
 						for i, e := range phi.Edges {
-							visit(e, phi.Block().Preds[i], d+1)
+							visit(g, e, phi.Block().Preds[i], d+1)
 						}
 						return
 					}
-					if ownTable(v) {
-						sources = append(sources, at)
+					if ownTableIn(g)(v) {
+						sources = append(sources, source{g, at})
+						return
+					}
+					if hc, isCall := v.(*ssa.Call); isCall {
+						h := core.StaticBody(&hc.Call)
+						if h != nil && h != g && h.Signature.Recv() != nil && len(hc.Call.Args) > 0 && reachedFrom(hc.Call.Args[0], g.Params[0], 0) {
+							for _, r := range core.ReturnsOf(h) {
+								if len(r.Results) == 1 {
+									visit(h, r.Results[0], r.Block(), d+1)
+								}
+							}
+						}
 					}
 				}
-				visit(table, b, 0)
+				visit(fn, table, b, 0)
 				if len(sources) == 0 {
 					continue
 				}
@@ -123,7 +142,7 @@ func (c *Ctx) ruleKeyID(rule string) {
 				k := key(rule, c.M.Key(fn), sprintf("hand-over #%d of the scope's own table for linking only after every entry was compared with its key", n))
 				why := ""
 				for _, src := range sources {
-					why = c.keysComparedBefore(fn, src, ownTable)
+					why = c.keysComparedBefore(src.fn, src.b, ownTableIn(src.fn))
 					if why == "" {
 						break
 					}
